@@ -108,11 +108,40 @@ Section Proofs.
   Lemma matrix_new_ok (data : list T) r c :
     0 < r -> 0 < c -> length data = r * c -> matrix_new data r c = Some (mkmat r c data).
   Proof.
-    intros Hr Hc Hl. unfold matrix_new.
+    intros Hr Hc Hl. unfold matrix_new, new_ok.
     replace (0 <? r) with true by (symmetry; apply Nat.ltb_lt; exact Hr).
     replace (0 <? c) with true by (symmetry; apply Nat.ltb_lt; exact Hc).
     replace (r * c =? length data) with true by (symmetry; apply Nat.eqb_eq; lia).
     reflexivity.
+  Qed.
+
+  (** the requests [Matrix::new] accepts (repaired code): positive dimensions whose product is the length, or 0 x 0 on
+      empty data; everything else, in particular every other shape with a zero dimension, is refused *)
+  Lemma new_ok_spec len r c :
+    new_ok len r c = true <-> (0 < r /\ 0 < c /\ r * c = len) \/ (r = 0 /\ c = 0 /\ len = 0).
+  Proof.
+    unfold new_ok. rewrite orb_true_iff, !andb_true_iff, !Nat.ltb_lt, !Nat.eqb_eq. tauto.
+  Qed.
+  Lemma new_ok_pos len r c : 0 < r -> 0 < c -> new_ok len r c = (r * c =? len).
+  Proof.
+    intros Hr Hc. unfold new_ok.
+    replace (0 <? r) with true by (symmetry; apply Nat.ltb_lt; exact Hr).
+    replace (0 <? c) with true by (symmetry; apply Nat.ltb_lt; exact Hc).
+    replace (r =? 0) with false by (symmetry; apply Nat.eqb_neq; lia).
+    cbn [andb]. apply orb_false_r.
+  Qed.
+  Lemma matrix_new_spec (data : list T) r c :
+    matrix_new data r c = if new_ok (length data) r c then Some (mkmat r c data) else None.
+  Proof. unfold matrix_new. destruct (new_ok _ _ _); reflexivity. Qed.
+  Lemma matrix_new_empty : matrix_new (@nil T) 0 0 = Some empty_mat.
+  Proof. reflexivity. Qed.
+  Lemma matrix_new_zero_dim (data : list T) r c :
+    r = 0 \/ c = 0 -> ~ (r = 0 /\ c = 0 /\ data = []) -> matrix_new data r c = None.
+  Proof.
+    intros Hz Hn. rewrite matrix_new_spec.
+    destruct (new_ok (length data) r c) eqn:E; [|reflexivity].
+    apply new_ok_spec in E. destruct E as [(Hr & Hc & _)|(Hr & Hc & Hl)]; [lia|].
+    exfalso. apply Hn. repeat split; auto. destruct data; [reflexivity|discriminate].
   Qed.
 
   Ltac start Hc :=
@@ -235,6 +264,7 @@ Section Proofs.
     = Some (mkmat (Nat.max r 1) (Nat.max 1 c) (np_data op d r 1 a1 1 c a2)).
   Proof.
     intros Hr Hc0 H1 H2 Hne Hc. start Hc. ltb_true.
+    rewrite new_ok_pos, Nat.eqb_refl by assumption. cbn [guard bind].
     rewrite (tabulate_mapM _ (fun i j => op (flat_at d a1 1 i 0) (flat_at d a2 c 0 j)));
       [|intros i j Hi Hj; rewrite (at2_unflatten a1 r 1 i 0 d), (at2_unflatten a2 1 c 0 j d) by (try assumption; lia);
         reflexivity].
@@ -254,6 +284,7 @@ Section Proofs.
     = Some (mkmat (Nat.max 1 r) (Nat.max c 1) (np_data op d 1 c a1 r 1 a2)).
   Proof.
     intros Hr Hc0 H1 H2 Hne Hc. start Hc. ltb_true.
+    rewrite new_ok_pos, Nat.eqb_refl by assumption. cbn [guard bind].
     rewrite (tabulate_mapM _ (fun i j => op (flat_at d a1 c 0 j) (flat_at d a2 1 i 0)));
       [|intros i j Hi Hj; rewrite (at2_unflatten a1 1 c 0 j d), (at2_unflatten a2 r 1 i 0 d) by (try assumption; lia);
         reflexivity].
@@ -394,6 +425,54 @@ Section Corollaries.
 
   Lemma vec_to_matrix_empty : vec_to_matrix (@nil T) = None.
   Proof. reflexivity. Qed.
+
+  (** *** The empty 0 x 0 matrix ([Matrix::empty()]) under broadcasting (repaired [Matrix::new]): NumPy's rule for the
+      shape (0, 0) -- compatible exactly with (0, 0) and with (1, 1), the result being (0, 0) -- and a panic for
+      every other well-formed operand *)
+  Lemma broadcast_empty_empty : broadcast op empty_mat empty_mat = Some empty_mat.
+  Proof. reflexivity. Qed.
+
+  Lemma broadcast_empty_l (m : mat T) :
+    wf_mat m -> broadcast op empty_mat m = if (nr m =? 1) && (nc m =? 1) then Some empty_mat else None.
+  Proof.
+    destruct m as [r c a]. intros (Hr & Hc & Hl). cbn [nr nc dat] in *.
+    destruct r as [|[|r]]; [lia| |]; (destruct c as [|[|c]]; [lia| |]); try reflexivity.
+    destruct a as [|x [|y a]]; try discriminate Hl. reflexivity.
+  Qed.
+
+  Lemma broadcast_empty_r (m : mat T) :
+    wf_mat m -> broadcast op m empty_mat = if (nr m =? 1) && (nc m =? 1) then Some empty_mat else None.
+  Proof.
+    destruct m as [r c a]. intros (Hr & Hc & Hl). cbn [nr nc dat] in *.
+    destruct r as [|[|r]]; [lia| |]; (destruct c as [|[|c]]; [lia| |]); try reflexivity.
+    destruct a as [|x [|y a]]; try discriminate Hl. reflexivity.
+  Qed.
+
+  Lemma empty_matrix_broadcast :
+    broadcast op (mkmat 0 0 []) (mkmat 0 0 []) = Some (mkmat 0 0 []) /\
+    forall m : mat T, wf_mat m ->
+      broadcast op (mkmat 0 0 []) m = (if (nr m =? 1) && (nc m =? 1) then Some (mkmat 0 0 []) else None) /\
+      broadcast op m (mkmat 0 0 []) = (if (nr m =? 1) && (nc m =? 1) then Some (mkmat 0 0 []) else None).
+  Proof.
+    split; [apply broadcast_empty_empty|].
+    intros m Hm. split; [apply broadcast_empty_l|apply broadcast_empty_r]; exact Hm.
+  Qed.
+
+  Lemma matrix_new_accepts (a : list T) (r c : nat) :
+    matrix_new a r c = (if new_ok (length a) r c then Some (mkmat r c a) else None) /\
+    (new_ok (length a) r c = true <-> (0 < r /\ 0 < c /\ r * c = length a) \/ (r = 0 /\ c = 0 /\ length a = 0)).
+  Proof. split; [apply matrix_new_spec|apply new_ok_spec]. Qed.
+
+  (** on operands that are well formed or empty: a result is again well formed or empty *)
+  Lemma broadcast_wf0 (m1 m2 r : mat T) :
+    wf_mat0 m1 -> wf_mat0 m2 -> broadcast op m1 m2 = Some r -> wf_mat0 r.
+  Proof.
+    intros [H1| ->] [H2| ->] E.
+    - left. exact (proj2 (proj2 (broadcast_shape m1 m2 r H1 H2 E))).
+    - rewrite broadcast_empty_r in E by assumption. destruct (_ && _); [|discriminate]. right. congruence.
+    - rewrite broadcast_empty_l in E by assumption. destruct (_ && _); [|discriminate]. right. congruence.
+    - rewrite broadcast_empty_empty in E. right. congruence.
+  Qed.
 End Corollaries.
 
 (** ** The wiring of the 48 operator impls (regenerated table, Tie A) *)
